@@ -438,176 +438,22 @@ Proof.
   - right. exists 2%N. split; [reflexivity|]. split; [discriminate | reflexivity].
 Qed.
 
+(* a partial filter with selector / elements but no data item: always answered with an error *)
+Lemma rejected_update s remote u : rejected_shape u = true ->
+  exists c, update_data s remote true u = (s, [Res c]) /\ c <> 0%N.
+Proof.
+  unfold rejected_shape. intros H. apply andb_true_iff in H. destruct H as [Hf Hn].
+  destruct (u_new u) as [|? ?] eqn:En; [|discriminate].
+  assert (Hfull : negb (direct s) && is_full true u = false).
+  { unfold is_full. destruct (u_fp u); [cbn; apply andb_false_r | discriminate]. }
+  unfold update_data. rewrite Hfull, En. unfold update_list.
+  destruct (after_delete (sch s) remote _ (u_fd u)) as [[ex ok0]|].
+  - unfold apply_new. destruct (filter_data (u_fp u)); [|discriminate]. rewrite andb_false_r.
+    exists 1%N. split; [reflexivity | discriminate].
+  - exists 2%N. split; [reflexivity | discriminate].
+Qed.
+
 Lemma eqb_items_refl l : eqb_items l l = true.
 Proof. apply eqb_items_eq. reflexivity. Qed.
 
-Opaque same_map unique_ids ordered spec_apply wf_update wf_schema simple eqb_upd eqb_items.
-
-Ltac oos_case Hs1s Hs1d Hprev1 :=
-  unfold RInv; cbn [m_sch m_direct m_prev m_map sc_sch sc_direct sc_oos]; rewrite ?Hs1s, ?Hs1d;
-  split; [first [assumption | reflexivity]|]; split; [first [assumption | reflexivity]|]; split; [first [assumption | reflexivity]|]; split; [first [assumption | reflexivity]|];
-  split; [exact Hprev1|]; let Hd := fresh "Hd" in intros Hd; try discriminate;
-  match goal with E : sc_oos _ = true |- _ => rewrite E in Hd; discriminate end.
-
-Lemma step_ok s mm sc o :
-  RInv s mm sc ->
-  let '(s1, out) := step s o in
-  let '(mm1, v) := mon mm o out in
-  let sc1 := scope sc o in
-  excused v (excuses sc1) = true /\ RInv s1 mm1 sc1.
-Proof.
-  intros (Hms & Hmd & Hss & Hsd & Hprev & Hin).
-  assert (Hcase : sc_oos sc = true \/ sc_oos sc = false) by (destruct (sc_oos sc); auto).
-  destruct o as [ty d|remote persist wire u|].
-  - (* Init *)
-    cbn. split; [reflexivity|]. unfold RInv. cbn.
-    split; [reflexivity|]. split; [reflexivity|]. split; [reflexivity|]. split; [reflexivity|].
-    split; [intros u0 l0 H0; discriminate|].
-    intros H0. apply negb_false_iff in H0. split; [exact H0|].
-    split; [destruct d; apply Inv_nil | intros u0 l0 H1; discriminate].
-  - (* Update *)
-    cbn [step].
-    destruct (update_data s remote persist u) as [s1 out0] eqn:Eud.
-    destruct (update_data_obs s remote persist u) as [c [rest [Hout Hrest]]]. rewrite Eud in Hout. cbn [snd] in Hout. subst out0.
-    destruct (update_data_fields s remote persist u) as [Hs1s Hs1d]. rewrite Eud in Hs1s, Hs1d. cbn [fst] in Hs1s, Hs1d.
-    cbn [app mon]. rewrite (stored_app_ret rest (store s1) _ Hrest).
-    change (match store s1 with Some l => l | None => [] end) with (storel s1).
-    set (applied := persist && N.eqb c 0).
-    set (full := negb (m_direct mm) && is_full persist u).
-    set (m' := if applied then spec_apply (m_sch mm) full u (m_map mm) else m_map mm).
-    set (idem := match m_prev mm with
-                 | Some (u', l') => if applied && eqb_upd u u' && simple u && negb (eqb_items (storel s1) l') then [CL_IDEM] else []
-                 | None => [] end).
-    assert (Hidem : idem = [] \/ idem = [CL_IDEM]).
-    { subst idem. destruct (m_prev mm) as [[u' l']|]; [|left; reflexivity].
-      destruct (applied && eqb_upd u u' && simple u && negb (eqb_items (storel s1) l')); [right | left]; reflexivity. }
-    (* the unconditional part of the invariant for the new state *)
-    assert (Hprev1 : forall u0 l0, (if applied then Some (u, storel s1) else None) = Some (u0, l0) ->
-                       l0 = storel s1 /\ (negb (direct s) && is_full true u0 = true -> l0 = u_new u0)).
-    { intros u0 l0 H. destruct applied eqn:Ea; [|discriminate]. inversion H. subst u0 l0. split; [reflexivity|].
-      intros Hf. subst applied. apply andb_true_iff in Ea. destruct Ea as [-> Ec].
-      revert Eud. unfold update_data.
-      rewrite Hf. intros Eud. inversion Eud. reflexivity. }
-    cbn [scope]. destruct remote.
-    { (* remote writes are out of the scope of C02 *)
-      cbn [excuses sc_oos]. split; [apply excused_four; exact Hidem|].
-      oos_case Hs1s Hs1d Hprev1. }
-    destruct persist.
-    2:{ (* not persisted: nothing is applied, nothing stored *)
-      change (negb false) with true. cbv iota.
-      assert (Hs1 : storel s1 = storel s /\ s1 = s).
-      { revert Eud. unfold update_data.
-        assert (Hf : negb (direct s) && is_full false u = false) by (unfold is_full; cbn; apply andb_false_r).
-        rewrite Hf. destruct (update_list (sch s) false _ (u_new u) (u_fp u) (u_fd u)) as [[d0 [|]]|]; intros E; inversion E; split; reflexivity. }
-      destruct Hs1 as [Hst ->]. subst applied. cbn [andb] in *. subst m' idem.
-      assert (Hid2 : match m_prev mm with Some (u', l') => [] | None => [] end = ([] : list Z)) by (destruct (m_prev mm) as [[? ?]|]; reflexivity).
-      split.
-      - destruct Hcase as [Eo|Eo].
-        + unfold excuses; try rewrite Eo. apply excused_four. destruct (m_prev mm) as [[? ?]|]; left; reflexivity.
-        + destruct (Hin Eo) as [Hwf [HI _]]. rewrite Hms.
-          rewrite (Inv_same_map _ _ _ HI), (Inv_unique _ _ _ HI), (Inv_ordered _ _ _ HI).
-          destruct (m_prev mm) as [[? ?]|]; reflexivity.
-      - unfold RInv. cbn [m_sch m_direct m_prev m_map].
-        split; [first [assumption | reflexivity]|]. split; [first [assumption | reflexivity]|]. split; [first [assumption | reflexivity]|]. split; [first [assumption | reflexivity]|].
-        split; [intros u0 l0 H0; discriminate|].
-        intros Eo. destruct (Hin Eo) as [Hwf [HI _]]. split; [exact Hwf|]. split; [exact HI|]. intros u0 l0 H0; discriminate. }
-    (* persisted local update *)
-    change (negb true) with false. cbv iota.
-    rewrite Hss, Hsd.
-    destruct (wf_update (sch s) (negb (direct s) && is_full true u) u) eqn:Ewu.
-    2:{ cbn [excuses sc_oos]. split; [apply excused_four; exact Hidem|].
-        oos_case Hs1s Hs1d Hprev1. }
-    destruct (negb (direct s) && is_full true u) eqn:Efull.
-    + (* full update: the list becomes the data *)
-      assert (Hs1 : storel s1 = u_new u /\ c = 0%N).
-      { revert Eud. unfold update_data. rewrite Efull.
-        intros E. inversion E. split; reflexivity. }
-      destruct Hs1 as [Hst ->].
-      cbn [sc_oos excuses]. destruct (negb (wf_schema (sch s))) eqn:Ew.
-      * split; [apply excused_four; exact Hidem|].
-        oos_case Hs1s Hs1d Hprev1.
-      * apply negb_false_iff in Ew.
-        assert (Hfu : is_full true u = true) by (apply andb_true_iff in Efull; apply Efull).
-        assert (Hfl : filter_data (u_fp u) = None /\ u_fd u = None).
-        { unfold is_full in Hfu. cbn [andb] in Hfu. apply andb_true_iff in Hfu. destruct Hfu as [H1 H2].
-          destruct (u_fp u); [discriminate|]. destruct (u_fd u); [discriminate|]. split; reflexivity. }
-        destruct Hfl as [Hfp Hfd].
-        assert (Hl : wf_items (sch s) (u_new u) = true /\ ordered (sch s) (u_new u) = true).
-        { Transparent wf_update ordered. unfold wf_update in Ewu. rewrite Hfp, Hfd in Ewu.
-          apply andb_true_iff in Ewu. destruct Ewu as [_ Ewu]. apply andb_true_iff in Ewu. exact Ewu. }
-        Opaque wf_update ordered.
-        destruct Hl as [Hwi Hord].
-        assert (HI1 : Inv (sch s) (u_new u) (of_list (sch s) (u_new u))).
-        { apply (Inv_of_list (sch s)); [apply (wf_items_lwf (sch s)); exact Hwi | exact Hord]. }
-        subst applied full m'. cbn [andb N.eqb]. rewrite Hms, Hmd, Efull.
-        assert (Hsa : spec_apply (sch s) true u (m_map mm) = of_list (sch s) (u_new u)).
-        { Transparent spec_apply. reflexivity. }
-        Opaque spec_apply.
-        rewrite Hsa, Hst.
-        split.
-        -- rewrite (Inv_same_map _ _ _ HI1), (Inv_unique _ _ _ HI1), (Inv_ordered _ _ _ HI1). cbn [app].
-           subst idem. cbn [andb N.eqb]. destruct (m_prev mm) as [[u' l']|] eqn:Ep; [|reflexivity].
-           rewrite Hst. destruct (eqb_upd u u') eqn:Eu; [|reflexivity]. apply eqb_upd_eq in Eu. subst u'.
-           destruct (Hprev u l' eq_refl) as [_ Hl']. rewrite (Hl' Efull), eqb_items_refl.
-           destruct (simple u); reflexivity.
-        -- unfold RInv. cbn [m_sch m_direct m_prev m_map sc_sch sc_direct sc_oos]. rewrite Hs1s, Hs1d.
-           split; [first [assumption | reflexivity]|]. split; [first [assumption | reflexivity]|]. split; [reflexivity|]. split; [reflexivity|].
-           split.
-           { intros u0 l0 H. inversion H. subst u0 l0. split; [symmetry; exact Hst | intros _; reflexivity]. }
-           intros _. split; [exact Ew|]. split; [rewrite Hst; exact HI1|].
-           intros u0 l0 H _. inversion H. subst u0 l0. unfold stable.
-           unfold update_data. rewrite Hs1d, Efull. cbn [fst storel store]. symmetry. exact Hst.
-    + (* partial / delete update: the scope is what it was *)
-      destruct Hcase as [Eo|Eo].
-      * unfold excuses; try rewrite Eo. split; [apply excused_four; exact Hidem|].
-        oos_case Hs1s Hs1d Hprev1.
-      * destruct (Hin Eo) as [Hwf [HI Hstab]].
-        pose proof (update_data_local s (m_map mm) u Hwf HI Efull Ewu) as Hcases. cbv zeta in Hcases. rewrite Eud in Hcases. cbn [fst snd] in Hcases.
-        unfold excuses; try rewrite Eo.
-        destruct Hcases as [[d [Ho [Hst [HId Hstb]]]]|[c0 [Ho [Hc ->]]]].
-        -- inversion Ho. subst c rest. subst applied full m'. cbn [andb N.eqb]. rewrite Hms, Hmd, Efull, Hst.
-           split.
-           ++ rewrite (Inv_same_map _ _ _ HId), (Inv_unique _ _ _ HId), (Inv_ordered _ _ _ HId). cbn [app].
-              subst idem. cbn [andb N.eqb]. destruct (m_prev mm) as [[u' l']|] eqn:Ep; [|reflexivity].
-              rewrite Hst. destruct (eqb_upd u u') eqn:Eu; [|reflexivity]. apply eqb_upd_eq in Eu. subst u'.
-              destruct (simple u) eqn:Esi; [|reflexivity].
-              destruct (Hprev u l' eq_refl) as [Hl' _]. pose proof (Hstab u l' eq_refl Esi) as Hsb. unfold stable in Hsb.
-              rewrite Eud in Hsb. cbn [fst] in Hsb. rewrite Hst in Hsb. rewrite Hl', <- Hsb, eqb_items_refl. reflexivity.
-           ++ unfold RInv. cbn [m_sch m_direct m_prev m_map]. rewrite Hs1s, Hs1d.
-              split; [first [assumption | reflexivity]|]. split; [first [assumption | reflexivity]|]. split; [first [assumption | reflexivity]|]. split; [first [assumption | reflexivity]|].
-              split.
-              { intros u0 l0 H. inversion H. subst u0 l0. split; [symmetry; exact Hst|]. rewrite ?Hs1d, Efull. discriminate. }
-              intros _. rewrite Hst. split; [exact Hwf|]. split; [exact HId|].
-              intros u0 l0 H Hsi. inversion H. subst u0 l0. apply Hstb. exact Hsi.
-        -- inversion Ho. subst c rest. subst applied full m' idem.
-           assert (Hc0 : N.eqb c0 0 = false) by (apply N.eqb_neq; exact Hc). rewrite Hc0. cbn [andb].
-           split.
-           ++ rewrite Hms. rewrite (Inv_same_map _ _ _ HI), (Inv_unique _ _ _ HI), (Inv_ordered _ _ _ HI).
-              destruct (m_prev mm) as [[? ?]|]; reflexivity.
-           ++ unfold RInv. cbn [m_sch m_direct m_prev m_map].
-              split; [first [assumption | reflexivity]|]. split; [first [assumption | reflexivity]|].
-              split; [first [assumption | reflexivity]|]. split; [first [assumption | reflexivity]|].
-              split; [intros u0 l0 H0; discriminate|].
-              intros _. split; [exact Hwf|]. split; [exact HI|]. intros u0 l0 H0; discriminate.
-  - (* Snapshot *)
-    cbn. change (match store s with Some l => l | None => [] end) with (storel s). split.
-    + destruct Hcase as [Eo|Eo]; unfold excuses; try rewrite Eo.
-      * destruct (same_map (m_sch mm) (storel s) (m_map mm)); reflexivity.
-      * destruct (Hin Eo) as [_ [HI _]]. rewrite Hms, (Inv_same_map _ _ _ HI). reflexivity.
-    + unfold RInv. split; [assumption|]. split; [assumption|]. split; [assumption|]. split; [assumption|].
-      split; [exact Hprev | exact Hin].
-Qed.
-
-Theorem run_accepted_from s mm sc ops :
-  RInv s mm sc -> accepted (judge mm sc (snd (run s ops))) = true.
-Proof.
-  revert s mm sc. induction ops as [|o r IH]; intros s mm sc HR; [reflexivity|].
-  cbn [run]. pose proof (step_ok s mm sc o HR) as Hstep.
-  destruct (step s o) as [s1 out]. destruct (run s1 r) as [s2 tr] eqn:Er. cbn [snd judge].
-  destruct (mon mm o out) as [mm1 v]. cbv zeta in Hstep. destruct Hstep as [Hv HR1].
-  unfold accepted. cbn [forallb fst snd]. rewrite Hv. cbn [andb].
-  specialize (IH s1 mm1 (scope sc o) HR1). rewrite Er in IH. exact IH.
-Qed.
-
-Theorem run_accepted : forall ops, accepted (judge minit sinit (snd (run init ops))) = true.
-Proof. intros ops. apply run_accepted_from. apply RInv_init. Qed.
+Opaque same_map unique_ids ordered spec_apply wf_update wf_schema simple eqb_upd eqb_items rejected_shape.
